@@ -1205,7 +1205,17 @@ def run_history(shard, ctx):
     ops = gen_ops(level, flavour)
     ctx._law_checked = set()
     # initial state: complete observation
-    im0, _ = rebuild(level, flavour, init, [])
+    try:
+        im0, _ = rebuild(level, flavour, init, [])
+    except Exception as e:  # noqa: BLE001
+        if res == 0:
+            ctx.ev(1)
+            ctx.violation("container|%s.%s|init|raises_%s|%s" % (flavour, level, type(e).__name__, keys_class(m0)),
+                          "building the initial container (constructor%s) raised" % (
+                              " + write + read" if init.endswith("_parsed") else ""),
+                          {"kind": "history", "flavour": flavour, "level": level, "init": init, "hist": []},
+                          expected="success", observed=type(e).__name__)
+        return
     canon0 = json.dumps([model_key(m0), lazy_sig(im0.x, level, flavour)], default=str)
     ctx.state(canon0)
     bad = state_views(im0, m0) or deep_views(im0, m0, level, flavour, [], init)
@@ -1370,8 +1380,14 @@ def replay(case, ctx):
         if init.endswith("_parsed"):
             m = mark_parsed(m)
         ctx._law_checked = set()
-        if not hist:
+        try:
             im0, _ = rebuild(level, flavour, init, [])
+        except Exception as e:  # noqa: BLE001
+            ctx.violation("container|%s.%s|init|raises_%s|%s" % (flavour, level, type(e).__name__, keys_class(m)),
+                          "building the initial container raised", case, expected="success",
+                          observed=type(e).__name__)
+            return
+        if not hist:
             bad = state_views(im0, m) or deep_views(im0, m, level, flavour, [], init)
             if bad:
                 ctx.violation("container|%s.%s|state|%s|%s" % (flavour, level, bad[0][0], keys_class(m)),
